@@ -39,8 +39,25 @@ class TlcResult(object):
         self.violated = None    # name of violated invariant / property
         self.error = None       # other error text
         self.emitted = []       # decoded JSON values printed by the spec
+        self.outpath = None
+        self.n_emitted = 0
         self.postcondition_failed = False
         self.deadlock = False
+
+    def iter_emitted(self):
+        """Values printed with PrintT(ToJson(x)), streamed from the output file."""
+        with open(self.outpath, 'r', encoding='utf-8', errors='replace') as f:
+            for line in f:
+                if line.startswith('"') and len(line) > 3 and line[1] in '{[':
+                    line = line.strip()
+                    try:
+                        yield json.loads(json.loads(line))
+                    except ValueError:
+                        for piece in re.findall(r'"(?:[^"\\\\]|\\\\.)*"', line):
+                            try:
+                                yield json.loads(json.loads(piece))
+                            except ValueError:
+                                raise MachineryError('cannot parse emitted line: %r' % line[:200])
 
     def coverage_summary(self):
         return {k: v[1] for k, v in sorted(self.coverage.items())}
@@ -80,7 +97,7 @@ def parse_emitted(out):
 
 def run(workdir, module, cfg_text, module_text=None, workers=16, simulate=None, depth=None,
         seed=None, coverage=True, timeout=1800, env=None, deadlock=False, heap='8g',
-        dfs_queue=False, extra=()):
+        dfs_queue=False, extra=(), lazy_emitted=False):
     """Run TLC on `module` (a generated MC module if module_text is given)."""
     link_specs(workdir)
     if module_text is not None:
@@ -117,15 +134,27 @@ def run(workdir, module, cfg_text, module_text=None, workers=16, simulate=None, 
     res.cmdline = ' '.join(cmd[cmd.index('tlc2.TLC'):])
     res.cfg_text_summary = ' | '.join(l.strip() for l in cfg_text.splitlines() if l.strip())[:400]
     t0 = time.time()
+    outpath = os.path.join(workdir, module + '.out')
     try:
-        p = subprocess.run(cmd, cwd=workdir, env=e, stdout=subprocess.PIPE, stderr=subprocess.STDOUT,
-                           timeout=timeout)
+        with open(outpath, 'wb') as outf:
+            p = subprocess.run(cmd, cwd=workdir, env=e, stdout=outf, stderr=subprocess.STDOUT, timeout=timeout)
     except subprocess.TimeoutExpired as ex:
         subprocess.call(['pkill', '-f', 'metadir ' + meta])
         raise MachineryError('TLC timed out after %ss on %s' % (timeout, module))
     res.wall = time.time() - t0
     res.rc = p.returncode
-    res.out = p.stdout.decode('utf-8', 'replace')
+    res.outpath = outpath
+    # emitted values are TLA+ string literals on their own line; everything else is TLC's own output
+    plain = []
+    nemit = 0
+    with open(outpath, 'r', encoding='utf-8', errors='replace') as f:
+        for line in f:
+            if line.startswith('"') and len(line) > 3 and line[1] in '{[':
+                nemit += 1
+            else:
+                plain.append(line)
+    res.out = ''.join(plain)
+    res.n_emitted = nemit
     for m in RE_STATES.finditer(res.out):
         res.generated, res.distinct = int(m.group(1)), int(m.group(2))
     m = RE_DEPTH.search(res.out)
@@ -162,7 +191,7 @@ def run(workdir, module, cfg_text, module_text=None, workers=16, simulate=None, 
         # PrintT lines may contain the word Error; keep only TLC's own
         if res.rc != 0 or errs:
             res.error = '\n'.join(errs[:10]) or ('TLC exit code %s' % res.rc)
-    res.emitted = parse_emitted(res.out)
+    res.emitted = list(res.iter_emitted()) if (lazy_emitted is False and nemit) else []
     return res
 
 
